@@ -3,6 +3,7 @@ package core
 import (
 	"fmt"
 	"sort"
+	"strings"
 
 	"github.com/truora/minidyn/interpreter"
 	"github.com/truora/minidyn/types"
@@ -270,7 +271,7 @@ func (t *Table) fetchQueryData(input QueryInput) (*index, []string) {
 	return nil, t.SortedKeys
 }
 
-func prepareSearch(input *QueryInput, index *index, k, startKey string) (string, bool) {
+func prepareSearch(input *QueryInput, index *index, k, startKey, startIndexKey string) (string, bool) {
 	pk, ok := getPrimaryKey(index, k)
 	if !ok {
 		return pk, ok
@@ -282,9 +283,39 @@ func prepareSearch(input *QueryInput, index *index, k, startKey string) (string,
 
 	if pk == startKey {
 		input.started = true
+
+		return "", false
+	}
+
+	// the item named by the start key may have been deleted in the meantime,
+	// the search resumes at the first entry positioned after it
+	if isAfterStartKey(input.ScanIndexForward, index, k, pk, startKey, startIndexKey) {
+		input.started = true
+
+		return pk, true
 	}
 
 	return "", false
+}
+
+func isAfterStartKey(forward bool, index *index, k, pk, startKey, startIndexKey string) bool {
+	cmp := strings.Compare(pk, startKey)
+
+	if index != nil {
+		if startIndexKey == "" {
+			return false
+		}
+
+		if c := strings.Compare(k, startIndexKey); c != 0 {
+			cmp = c
+		}
+	}
+
+	if forward {
+		return cmp > 0
+	}
+
+	return cmp < 0
 }
 
 func (t *Table) getMatchedItemAndCount(input *QueryInput, pk, startKey string) (map[string]*types.Item, interpreter.ExpressionType, bool) {
@@ -333,6 +364,12 @@ func (t *Table) SearchData(input QueryInput) ([]map[string]*types.Item, map[stri
 	index, sortedKeys := t.fetchQueryData(input)
 
 	startKey := t.parseStartKey(t.KeySchema, exclusiveStartKey)
+	startIndexKey := ""
+
+	if index != nil {
+		startIndexKey = t.parseStartKey(index.keySchema, exclusiveStartKey)
+	}
+
 	input.started = startKey == ""
 	last := map[string]*types.Item{}
 	sortedKeysSize := int64(len(sortedKeys))
@@ -347,7 +384,7 @@ func (t *Table) SearchData(input QueryInput) ([]map[string]*types.Item, map[stri
 	for pos := range sortedKeys {
 		k := GetKeyAt(sortedKeys, sortedKeysSize, int64(pos), forward)
 
-		pk, ok := prepareSearch(&input, index, k, startKey)
+		pk, ok := prepareSearch(&input, index, k, startKey, startIndexKey)
 		if !ok {
 			scanned++
 			continue
